@@ -26,6 +26,7 @@ CONSTANTS
   TbVals = {}
   TickVals = {0, 1}
   Targets = {"A"}
+  SubTargets = {"A"}
   AutoVals = {TRUE}
   SubOneshot = {FALSE}
   Senders = {"A"}
